@@ -146,6 +146,12 @@ def judge(prop, case, rec, out):
         info['mismatch'] = {'model_out': m['out'], 'impl_out': rec['out'], 'first_diff': diff}
     mon = dict(out['mon'])
     mon.update({k: bool(v) for k, v in rec['py'].items()})
+    # statement domain: subtree(roots) is claimed for roots that are ordinary members of the WBS (CloneArgs.member); a shrunk case may
+    # have lost the calls that attached them
+    if case['roots'] is not None and any(rec['pre']['t'][r][5] != rec['w'] for r in case['roots'] if r < len(rec['pre']['t'])):
+        mon = {k: True for k in mon}
+        eq = True
+        info = {'out_of_domain': 'a root is not a member of the WBS'}
     nontrivial = rec['out'] == 'ok' and len(rec['post']['t']) - len(rec['pre']['t']) >= 3
     return Outcome(case, eq, mon, {}, nontrivial, common.digest(case), info)
 
